@@ -85,6 +85,15 @@ theorem C15_euler_tables_gray :
       grayQuad false (quadBit code 1) (quadBit code 2) (quadBit code 4) (quadBit code 8)) :=
   ⟨euler_powers, euler_den, lookup8_gray, lookup4_gray⟩
 
+/-- **The Euler model is Gray's bit-quad count.** For every image, `4·euler(f, n)` of the model
+(convolution with `_powers` over the image padded by one background row and column, table look-up,
+sum) equals the sum over *every* 2×2 window that meets the image — top-left corner from `(-1,-1)`
+to `(rows-1, cols-1)`, background outside — of Gray's weight of that window:
+`n(Q1) − n(Q3) − 2·n(QD)` for 8-connectivity and `… + 2·n(QD)` for 4-connectivity.
+(That this count equals components − holes is Gray's theorem: validated, not proved.) -/
+theorem C15_euler_model_is_gray_sum (b : Bin) (conn8 : Bool) : eulerModel4 b conn8 = graySum b conn8 :=
+  eulerModel4_eq_graySum b conn8
+
 /-- **Hull corners are distinct foreground pixels.** Every corner returned by the model of
 `_convex.convexhull` (sort, two in-place monotone-chain scans) is a set pixel of the image, and no
 corner is returned twice — for every image. (Convex position and containment of all foreground
